@@ -4,7 +4,7 @@ seed=$1; shift
 for p in "$@"; do
   crate=$(python3 -c "import json;print(json.load(open('/verif/checks.json'))['$p']['parts'][0][0])")
   ncrates=$(python3 -c "import json;print(len(set(c for c,_ in json.load(open('/verif/checks.json'))['$p']['parts'])))")
-  if [ "$ncrates" = 1 ]; then export CARGO_TARGET_DIR=/verif/harness/target-$crate; else unset CARGO_TARGET_DIR; fi
+  unset CARGO_TARGET_DIR
   t0=$(date +%s)
   out=$(cd /verif && VERIF_SEED=$seed ./check $p quick 2>&1); code=$?
   t1=$(date +%s)
